@@ -85,7 +85,7 @@ def build_history(d, rng, nsteps):
     commit()
     for _ in range(nsteps):
         op = rng.choice(["commit", "commit", "branch", "tag", "delbranch", "reset", "repack-keep", "repack-ad", "detach", "symlink", "gitlink",
-                         "unreachable-blob", "alternate", "age", "merge", "tag-of-blob", "pack-refs", "unreachable-old-pack-young-loose"])
+                         "unreachable-blob", "alternate", "age", "merge", "tag-of-blob", "pack-refs", "unreachable-old-pack-young-loose", "ref-directly-below-refs"])
         try:
             if op == "commit":
                 commit()
@@ -148,6 +148,14 @@ def build_history(d, rng, nsteps):
                     with open(lp, "wb") as f:
                         f.write(zlib.compress(b"blob %d\0" % len(data) + data))
                     feats.add("unreachable-old-pack-young-loose")
+            elif op == "ref-directly-below-refs":
+                # refs/<name> (no further directory level), as `git update-ref refs/keep <id>` makes it: keeps a commit alive that no
+                # branch or tag reaches any more
+                commit()
+                c = core.git(["rev-parse", "HEAD"], cwd=d).stdout.strip().decode()
+                core.git(["update-ref", "refs/keep%d" % rng.randrange(3), c], cwd=d)
+                core.git(["reset", "-q", "--hard", "HEAD~1"], cwd=d, check=False)
+                feats.add("ref-directly-below-refs")
             elif op == "alternate" and "alternate" not in feats:
                 alt = d + "-alt"
                 core.git(["clone", "-q", "--bare", d, alt])
@@ -262,7 +270,7 @@ def run_seq(case):
             done.append(step)
             stats["maintenance_steps"] = stats.get("maintenance_steps", 0) + 1
             ftag = "+".join(sorted(f for f in feats if f in ("alternate", "gitlink-entry", "symlink-entry", "detached-head-only-commit", "tag-of-blob",
-                                                              "pack+loose-duplicates", "unreachable-old-pack-young-loose")))[:80]
+                                                              "pack+loose-duplicates", "unreachable-old-pack-young-loose", "ref-directly-below-refs")))[:80]
             r = Repo(d)
             try:
                 bad = 0
@@ -341,6 +349,8 @@ def run_conc(case):
                 core.git(["prune-packed"], cwd=d)
             if case["layout"] == "one-pack+loose" and i == 3:
                 core.git(["repack", "-adq"], cwd=d)
+            if case["layout"] == "loose+packed-duplicates" and i == 5:
+                core.git(["repack", "-q"], cwd=d)          # everything packed, loose copies stay
             if case["layout"] == "midx" and i in (1, 3):
                 core.git(["repack", "-q"], cwd=d)
                 core.git(["prune-packed"], cwd=d)
@@ -424,6 +434,21 @@ def run_conc(case):
                 elif w == "repack+midx":
                     r.object_store.repack()
                     r.object_store.write_midx()
+                elif w == "git-prune-packed":
+                    # what C git's prune-packed (run by `git repack -d` / `git gc`) does, call by call, so that the scheduler can
+                    # interleave it: unlink every loose object that is also packed, then rmdir the fan-out directory once it is empty
+                    od = os.path.join(root, ".git", "objects")
+                    for fan in sorted(os.listdir(od)):
+                        if len(fan) != 2:
+                            continue
+                        fd_ = os.path.join(od, fan)
+                        for rest in sorted(os.listdir(fd_)):
+                            if r.object_store.contains_packed((fan + rest).encode()):
+                                os.unlink(os.path.join(fd_, rest))
+                        try:
+                            os.rmdir(fd_)
+                        except OSError:
+                            pass
             finally:
                 r.close()
         actors = {"W": repacker}
@@ -505,9 +530,12 @@ def main(ctx):
             for readers, warm in ((1, False), (1, True), (2, True)):
                 cases.append({"kind": "conc", "seed": "%d/c/%s/%s/%d%s" % (ctx.seed, work, layout, readers, warm), "work": work, "layout": layout,
                               "readers": readers, "warm": warm, "max_runs": ctx.budget(120, 1500), "bound": 2, "nlook": 5})
+    for readers, warm in ((1, False), (1, True), (2, True)):
+        cases.append({"kind": "conc", "seed": "%d/c/prune-packed/%d%s" % (ctx.seed, readers, warm), "work": "git-prune-packed", "layout": "loose+packed-duplicates",
+                      "readers": readers, "warm": warm, "max_runs": ctx.budget(200, 2000), "bound": 2, "nlook": 5})
     ctx.rule = ("sequential: random git-built histories (14 build steps over 17 op kinds incl. alternates, gitlinks, symlinks, detached HEAD, tags of "
                 "blobs, duplicates across packs, aged files) followed by 1..5 of 14 maintenance steps, closure re-read after every step; "
-                "concurrent: 4 repacker workloads x 3 layouts x reader configurations, all schedules with <=2 preemptions on objects/**. "
+                "concurrent: 4 repacker workloads x 3 layouts + C git's prune-packed (emulated call by call) over loose+packed duplicates x reader configurations, all schedules with <=2 preemptions on objects/**. "
                 "non-trivial = distinct (feature set, maintenance sequence) / distinct interleaving.")
     ctx.assumptions = ["objects reachable only from the index or reflogs are outside the statement", "gitlink targets are not objects of the repository",
                        "omissions from a full iteration during a repack are counted (observed_iteration_gaps), not judged"]
